@@ -158,6 +158,7 @@ type treeCtx struct {
 	g       *G
 	shuffle bool
 	prefix  func() string // prefix to use for a compact IRI
+	extAlias string       // declared alias of the API-extension namespace ("" = only the built-in apiExt)
 }
 
 func (c *treeCtx) pathText(p Path) string {
@@ -173,7 +174,26 @@ func (c *treeCtx) pathText(p Path) string {
 		b.WriteString(s[:i] + c.prefix() + ".")
 		s = s[i+3:]
 	}
-	return b.String()
+	out := b.String()
+	if c.extAlias != "" {
+		// the built-in prefix of the API-extension namespace, or a prefix the profile declares for it
+		var b2 strings.Builder
+		for {
+			i := strings.Index(out, "apiExt.")
+			if i < 0 {
+				b2.WriteString(out)
+				break
+			}
+			pfx := "apiExt"
+			if c.g.coin(0.6) {
+				pfx = c.extAlias
+			}
+			b2.WriteString(out[:i] + pfx + ".")
+			out = out[i+7:]
+		}
+		out = b2.String()
+	}
+	return out
 }
 
 func (c *treeCtx) order(n int) []int {
@@ -320,6 +340,9 @@ func profileTree(g *G, p ProfileSpec, shuffle bool, prefixes []string) *ynode {
 	if !shuffle {
 		c.prefix = func() string { return prefixes[0] }
 	}
+	if shuffle && len(prefixes) > 1 {
+		c.extAlias = "my-ext_1"
+	}
 	root := ymap()
 	levels := map[string][]string{}
 	for _, v := range p.Validations {
@@ -342,6 +365,9 @@ func profileTree(g *G, p ProfileSpec, shuffle bool, prefixes []string) *ynode {
 				pm.put(all[i], ystr(NS))
 			}
 			pm.put("xsd", ystr("http://www.w3.org/2001/XMLSchema#"))
+			if c.extAlias != "" {
+				pm.put(c.extAlias, ystr(ApiExtNS))
+			}
 			root.put("prefixes", pm)
 		case "validations":
 			vm := ymap()
@@ -387,7 +413,11 @@ func genC15(g *G, n int, out io.Writer) {
 	enc := json.NewEncoder(out)
 	maxBranches = 16
 	for i := 0; i < n; i++ {
+		customSteps = i%3 == 1
 		base := genC01Graph(g, i, g.coin(0.6))
+		if customSteps {
+			base.Graph = g.graphA(3+g.n(5), 0.5, true)
+		}
 		base.Op = "c15"
 		base.Stream = "graphcount"
 		if base.Atoms[0].Kind != "minCount" && base.Atoms[0].Kind != "maxCount" && base.Atoms[0].Kind != "exactCount" {
@@ -413,4 +443,5 @@ func genC15(g *G, n int, out io.Writer) {
 		base.Data = base.Graph.RenderFlat()
 		enc.Encode(C15Case{C01Case: base, ProfileB: "#%Validation Profile 1.0\n" + wb.String(), ProfileC: wc.String()})
 	}
+	customSteps = false
 }
